@@ -263,6 +263,9 @@ CORPUS = [
     ("corpus", "fixed", ".F90", "#define X \\\n\n"),
     ("corpus", "fixed", ".F90", "#define X a\\b\n#define Y \\q\nx = X + Y\n"),
     ("corpus", "fixed", ".F90", "#define F(a,b) a\\1b\ny = F(1,2)\n"),
+    # lists that start with an empty item (an ASSOCIATE list did abort parse(); fixed in /repo), a macro redefined with another kind (fixed)
+    ("corpus", "fixed", ".f90", "program p\nassociate(,a=>b)\nend associate\nassociate(,)\nend associate\ninteger :: , x\nuse m, only: , y\nend program p\n"),
+    ("corpus", "fixed", ".F90", "#define N 1\nx = N\n#undef N\n#define N(a) a+1\ny = N(2)\n#undef N\n#define N 3\nz = N\n"),
     ("corpus", "fixed", ".f90", "end\nend\ncontains\nimplicit none\nprivate\n"),
     ("corpus", "fixed", ".f90", "type is (integer)\nclass default\nend select\n"),
     ("corpus", "fixed", ".f", "      do 10 i=1,2\n      do 10 j=1,2\n10    continue\n10    continue\n"),
